@@ -23,8 +23,8 @@ ASSUMPTIONS = [
     'array pressure profiles: the hydrostatic clauses are asserted when the levels the code derives from the array are strictly decreasing (the statement quantifies over decreasing levels)',
     'rtol 1e-10 on altitude/gravity/scale height against the pure-python reference',
 ]
-RULE = RULE + ' ' + 'Also: levels 1-8 ulp apart, array profiles read from text files (own column, header rows, unit, top-first with reverse=True), temperatures as an integer array; cases stratified by part. Round 9: the planet-change history moves mass and radius together, the mass alone or the radius alone (a third each).'
-REQUIRED = {'planet-changed:mass-only': 0.08, 'rejected-point-then-valid': 0.05, 'temperatures:integer-array': 0.08, 'array:from-file': 0.008, 'array:from-file,top-first': 0.008, 'levels:ulp-spaced': 0.025, 'part:function': 0.2, 'part:model-simple': 0.2, 'part:model-array': 0.08, 'layers:1': 0.01}
+RULE = RULE + ' ' + 'Also: levels 1-8 ulp apart, array profiles read from text files (own column, header rows, unit, top-first with reverse=True), temperatures as an integer array; cases stratified by part. Round 9: the planet-change history moves mass and radius together, the mass alone or the radius alone (a third each). Round 11: the pressure-range history moves both ends, the top alone or the bottom alone (a third each).'
+REQUIRED = {'re-ranged:min-only': 0.04, 're-ranged:max-only': 0.04, 'planet-changed:mass-only': 0.08, 'rejected-point-then-valid': 0.05, 'temperatures:integer-array': 0.08, 'array:from-file': 0.008, 'array:from-file,top-first': 0.008, 'levels:ulp-spaced': 0.025, 'part:function': 0.2, 'part:model-simple': 0.2, 'part:model-array': 0.08, 'layers:1': 0.01}
 
 MJUP = 1.2668653e17 / 6.6743e-11
 RJUP = 71492000.0
@@ -260,9 +260,15 @@ def check_model(out, c):
     # ---- history: the pressure range changed through the fitting parameters of the same model
     if not array and nl >= 2:
         out.cls('re-ranged')
-        new_min, new_max = W.pmin * 0.037, W.pmax * 2.9
-        m['atm_min_pressure'] = new_min
-        m['atm_max_pressure'] = new_max
+        # both ends moved, or only the top, or only the bottom (a retrieval fitting one of them alone)
+        which = ('both', 'min-only', 'max-only')[c.get('file_layout', [0, 0])[0] % 3]
+        out.cls('re-ranged:' + which)
+        new_min = W.pmin * 0.037 if which != 'max-only' else W.pmin
+        new_max = W.pmax * 2.9 if which != 'min-only' else W.pmax
+        if which != 'max-only':
+            m['atm_min_pressure'] = new_min
+        if which != 'min-only':
+            m['atm_max_pressure'] = new_max
         with np.errstate(all='ignore'):
             cut(out, 'model@re-ranged', m.model)
         P2 = np.asarray(m.pressureProfile, dtype=float)
